@@ -712,6 +712,23 @@ class EQLTranslator:
         if current_dao is None:
             raise MissingDAOError(f"No DAO class found for {base_class}.")
 
+        leaf = AttributeChainResolver().extract_leaf_variable(query)
+        selected = self.select_like.selected_variable
+        if leaf is not None and leaf is not selected:
+            anchor_dao = get_dao_class(selected._type_)
+            if anchor_dao is not None and any(
+                base in anchor_dao.__mro__
+                for base in current_dao.__mro__
+                if hasattr(base, "__table__")
+            ):
+                # The statement has one FROM element per mapped class, and classes of one mapped hierarchy share the
+                # tables of their common bases: a second variable of the selected variable's hierarchy would be
+                # answered on the selected row.
+                raise UnsupportedQueryTypeError(
+                    f"Cannot translate a condition on a second variable of the mapped hierarchy of the selected one: "
+                    f"{current_dao.__name__} and {anchor_dao.__name__}"
+                )
+
         return self._walk_attribute_chain(current_dao, attribute_names)
 
     def _collect_attribute_chain(self, query: Attribute) -> List[str]:
